@@ -57,13 +57,13 @@ def do_op(w, cfg, op):
         except Exception:
             bits = M.write_data_bits(cfg, 0, op["len"], op["salt"])
         arr = M.input_array(cfg, bits)
-        ga = np.array(g, dtype=np.uint64)
-        ba = np.array(b, dtype=np.uint64)
+        ga = np.array(g, dtype=np.int64 if min(g) < 0 else np.uint64)
+        ba = np.array(b, dtype=np.int64 if min(b) < 0 else np.uint64)
         return int(w.rf_write_blocks(arr, ga, ba))
     raise ValueError("unknown op %r" % k)
 
 
-def run_session(report, top, cfg, ops, session=0, sync=False):
+def run_session(report, top, cfg, ops, session=0, sync=False, before_op=None):
     """open writer, run ops, close; report every API outcome.
     sync=True parks the node (kind "sync") after every report so the simulator can look."""
     _report = report
@@ -82,6 +82,8 @@ def run_session(report, top, cfg, ops, session=0, sync=False):
     for i, op in enumerate(ops):
         if op["op"] == "close":
             break
+        if before_op is not None:
+            before_op(i)
         report({"ev": "begin", "call": "op", "s": session, "i": i})
         try:
             ret = do_op(w, cfg, op)
